@@ -101,12 +101,20 @@ func (e evCounter) Handle(ev interface{}) {
 
 // newAccFixture builds the same objects NewIPTransport/Start build, minus mDNS; pin is the 8-digit code.
 func newAccFixture(c *Ctx, pin8 string, accs ...*accessory.Accessory) (*accFixture, error) {
+	return newAccFixtureDB(c, pin8, nil, accs...)
+}
+
+// newAccFixtureDB: wrap (optional) decorates the database handed to the handlers (e.g. to log SaveEntity calls).
+func newAccFixtureDB(c *Ctx, pin8 string, wrap func(db.Database) db.Database, accs ...*accessory.Accessory) (*accFixture, error) {
 	f := &accFixture{dir: c.ScratchDir(), conns: map[string]*hap.Connection{}, raw: map[string]*fakeConn{}}
 	var err error
 	if f.storage, err = util.NewFileStorage(f.dir); err != nil {
 		return nil, err
 	}
 	f.db = db.NewDatabaseWithStorage(f.storage)
+	if wrap != nil {
+		f.db = wrap(f.db)
+	}
 	if f.pin, err = hc.ValidatePin(pin8); err != nil {
 		return nil, err
 	}
